@@ -33,8 +33,11 @@ func c15Spec(name string) map[string]interface{} {
 	switch name {
 	case "X":
 		return map[string]interface{}{"name": "X", "nodes": map[string]interface{}{
-			"start": msgNode(br(map[string]interface{}{"inc": "?n"}, "bump")),
-			"bump":  act(`var c = (_.bindings.count || 0) + 1; _.out({x: c, from: _.props.mid}); return {count: c};`, "start"),
+			// "?one" is a number the matcher meets again as a bound variable (in memory it is what the script
+			// produced, after a restart what the host's loader made of it)
+			"start": msgNode(br(map[string]interface{}{"inc": "?n"}, "bump"), br(map[string]interface{}{"is": "?one"}, "hit")),
+			"bump":  act(`var c = (_.bindings.count || 0) + 1; _.out({x: c, from: _.props.mid}); return {count: c, "?one": 1};`, "start"),
+			"hit":   act(`_.out({hit: _.bindings.count, from: _.props.mid}); return _.bindings;`, "start"),
 		}}
 	case "Y":
 		return map[string]interface{}{"name": "Y", "nodes": map[string]interface{}{
@@ -96,6 +99,9 @@ var c15Ops = []c15Op{
 			"m1": map[string]interface{}{"spec": map[string]interface{}{"inline": c15Spec("Y")}},
 			"m3": map[string]interface{}{"spec": map[string]interface{}{"inline": map[string]interface{}{"nodes": map[string]interface{}{"start": map[string]interface{}{"action": map[string]interface{}{"interpreter": "cobol", "source": "x"}}}}}}}}
 	}},
+	// a state update that gives bindings but names no node
+	{"is-1", func() interface{} { return map[string]interface{}{"is": 1.0} }},
+	{"bs-only-m1", upd("m1", "", map[string]interface{}{"bs": map[string]interface{}{"count": 3.0}})},
 	{"create-m1-X-with-state", upd("m1", "X", map[string]interface{}{"node": "start", "bs": map[string]interface{}{"count": 7.0}})},
 	// crash and restart at this message boundary: the crew is replaced by one rebuilt from the shadow store
 	{"restart", nil},
@@ -385,6 +391,15 @@ func c15ViaStdio(hist []string) [][2]string {
 		}
 		os.Remove(c15File)
 	}()
+	// the same history without the restarts, kept in memory: a restart must not be observable
+	var plain []string
+	for _, name := range hist {
+		if name != "restart" && name != "restart-drain" {
+			plain = append(plain, name)
+		}
+	}
+	mem, _, _, membad := c15Build(nil)
+	pi := 0
 	written := false
 	for i, name := range hist {
 		if name == "restart" || name == "restart-drain" {
@@ -403,6 +418,17 @@ func c15ViaStdio(hist []string) [][2]string {
 			return nil // the first half of the check reports processing failures
 		}
 		written = true
+		if membad == "" && mem != nil && pi < len(plain) {
+			if _, err := mem.ProcessMsg(context.Background(), opByName(plain[pi]).Msg()); err == nil {
+				pi++
+				if lk, mk := liveKey(h.c), liveKey(mem); lk != mk && len(plain) != len(hist) {
+					return [][2]string{{"stdio-restart-is-observable/after-" + name,
+						fmt.Sprintf("history %v with sio.Stdio as the host and restarts from its state file: after %q the crew is [%s]; the crew that was never restarted is [%s]", hist[:i+1], name, lk, mk)}}
+				}
+			} else {
+				membad = err.Error()
+			}
+		}
 		// the consumer is now idle or re-writing the same state for the empty result: its map is only read
 		if lk, sk := liveKey(h.c), shadowKey(shadow(h.io.state)); lk != sk {
 			return [][2]string{{"stdio-state-differs-from-live-crew/after-" + name,
@@ -438,7 +464,7 @@ func stateKeyFull(c *Crew, s shadow) string {
 	return liveKey(c) + "#" + shadowKey(s) + "#" + cap + "#" + strings.Join(prev, ",")
 }
 
-var c15Conts = [][]string{{"inc-all"}, {"inc-m1"}, {"create-m2-Y"}, {"delete-m1"}, {"delete-m2"}, {"boss-delete-m2"}, {"boss-recreate-m1"}, {"spec-m1-Y"}, {"state-m1-and-bad-m3"}, {"inc-m1-and-op-on-m1-and-bad-m3"},
+var c15Conts = [][]string{{"inc-all"}, {"inc-m1"}, {"create-m2-Y"}, {"delete-m1"}, {"delete-m2"}, {"boss-delete-m2"}, {"boss-recreate-m1"}, {"spec-m1-Y"}, {"bs-only-m1"}, {"is-1"}, {"inc-all", "is-1"}, {"state-m1-and-bad-m3"}, {"inc-m1-and-op-on-m1-and-bad-m3"},
 	{"inc-all", "inc-all"}, {"create-m1-X", "inc-m1"}, {"state-m1", "inc-m1"}, {"delete-m1", "create-m1-X"}, {"delete-m1", "inc-all"}, {"create-m1-X-with-state", "inc-all"}}
 
 // c15Check evaluates invariant and differential for one history; returns violations.
